@@ -841,6 +841,16 @@ def rule_Y(ctx):
                [(y, (1, 2, 3, 12)) for y in (2038, 2096, 2099, 2100, 2101, 2104, 2200, 2300, 2400, 2401)]
     bad_t, bad_r = [], []
     n = 0
+    # first, conversions asked of timestamps that are no calendar dates (a month 13, 14 or 23 from a day / month mix-up, a month 0, in leap and
+    # in common years): whatever they answer or raise, the conversions of well-formed dates afterwards are unaffected (the class-level
+    # tables are shared by all timestamps of the process)
+    for (y_, m_, d_) in ((2020, 23, 2), (2024, 14, 1), (2020, 13, 1), (2021, 15, 3), (2020, 0, 10), (2019, 0, 1), (2000, 30, 1)):
+        try:
+            T(y_, m_, d_, 1, 2, 3, 0).call('toAbsTime')
+        except orders.Unsupported as ex:
+            raise shape_error('ObsTime conversions not interpretable: %s' % ex, ft.loc())
+        except orders.PROGRAM_ERRORS:
+            pass
     for y, months in plan:
         for m in months:
             last = (datetime.date(y + (m == 12), m % 12 + 1, 1) - datetime.timedelta(days=1)).day
